@@ -1339,10 +1339,15 @@ func genDecApi(emit func(string), tier string, rng *Rng) {
 			}
 		}
 	}
-	// 8. the standard factory (expansion off): fixtures whole, mutated, chained; encoder outputs
+	// 8. the standard factory — with expansion on it is the decoder's DEFAULT configuration (sub-fields, scales, offsets,
+	// accumulation: the model side is the composition of the API model with C05's expansion model, Driver/DecApiStd.lean) —
+	// and with expansion off: fixtures whole, mutated, chained; encoder outputs
 	stdOpt := func() string {
 		o := dapiOptString(rng)
-		return strings.Replace(o, "exp1", "exp0", 1)
+		if rng.Intn(3) == 0 {
+			return strings.Replace(o, "exp1", "exp0", 1)
+		}
+		return strings.Replace(o, "exp0", "exp1", 1)
 	}
 	var small [][]byte
 	for _, p := range fixtureFiles() {
@@ -1532,6 +1537,52 @@ func genDecHist(emit func(string), tier string, rng *Rng) {
 				emit(dapiLine("dechist", opt, fac, ops, [][]byte{stream}))
 				count(fmt.Sprintf("overrun-by-%d", min(k, 4)))
 			}
+		}
+	}
+	// THE DEFAULT CONFIGURATION (standard factory, component expansion on): chains of sequences whose records carry the
+	// profile's component fields — record.compressed_speed_distance (speed + distance, distance accumulates), speed →
+	// enhanced_speed, altitude → enhanced_altitude (scale 5, offset 500), cycles → total_cycles (accumulates),
+	// event.data with the sub-field selected by event.event (gear change: four components; others none), hr.event_timestamp_12
+	// — so that what expansion and the accumulator do is history dependent if anything of a predecessor survives
+	for i := 0; i < 60*scale; i++ {
+		mk := func(withFid bool) []byte {
+			var r []byte
+			if withFid {
+				r = append(r, dapiDefRec(0, 0, 0, []dapiFD{{0, 1, 0x00}, {1, 2, 0x84}}, nil)...)
+				r = append(r, 0, 4, 1, 0)
+			}
+			r = append(r, dapiDefRec(1, 0, 20, []dapiFD{{253, 4, 0x86}, {8, 3, 0x0D}, {6, 2, 0x84}, {2, 2, 0x84}, {18, 1, 0x02}}, nil)...)
+			r = append(r, dapiDefRec(2, 0, 21, []dapiFD{{253, 4, 0x86}, {0, 1, 0x00}, {3, 4, 0x86}}, nil)...)
+			r = append(r, dapiDefRec(3, 0, 132, []dapiFD{{9, 6, 0x0D}}, nil)...)
+			ts := 0x30000000 + uint32(rng.Intn(100000))
+			for k, n := 0, rng.Range(1, 6); k < n; k++ {
+				ts += uint32(rng.Intn(30))
+				switch rng.Intn(4) {
+				case 0, 1:
+					r = append(r, 1, byte(ts), byte(ts>>8), byte(ts>>16), byte(ts>>24))
+					r = append(r, rng.Bytes(3)...)
+					r = append(r, byte(rng.Intn(256)), byte(rng.Intn(40)), byte(rng.Intn(256)), byte(rng.Intn(30)), byte(rng.Intn(256)))
+				case 2:
+					ev := []byte{42, 43, 0, 3, 36, 255}[rng.Intn(6)]
+					r = append(r, 2, byte(ts), byte(ts>>8), byte(ts>>16), byte(ts>>24), ev)
+					r = append(r, rng.Bytes(4)...)
+				default:
+					r = append(r, 3)
+					r = append(r, rng.Bytes(6)...)
+				}
+			}
+			return dapiSeq(14, true, r)
+		}
+		p1, p2, s3 := mk(rng.Intn(4) != 0), mk(rng.Bool()), mk(rng.Bool())
+		opt := fmt.Sprintf("chk%d,exp1,bo%d,bc0,ml%d,dl%d,lw0,rbs0", rng.Intn(2), rng.Intn(6)/5, rng.Intn(2), rng.Intn(2))
+		chain := append(append(append([]byte(nil), p1...), p2...), s3...)
+		ops := consume[rng.Intn(len(consume))] + "," + consume[rng.Intn(len(consume))] + "," +
+			[]string{"dec", "pki,dec", "nxt,dec", "decx:2,dec", "pkh,dec", "ci,dec,dec,dec"}[rng.Intn(6)]
+		emit(dapiLine("dechist", opt, "std", ops, [][]byte{chain}))
+		count("default-configuration-components")
+		if rng.Intn(3) == 0 { // the last sequence on a new reader after a Reset
+			emit(dapiLine("dechist", opt, "std", consume[rng.Intn(len(consume))]+",pki,rst1,dec", [][]byte{append(append([]byte(nil), p1...), p2...), s3}))
+			count("default-configuration-components")
 		}
 	}
 	// CheckIntegrity after other calls on the same decoder (peeked header, peeked file id, Next, a consumed sequence), on
